@@ -174,6 +174,14 @@ impl World {
                         if e == Ty::U(8) { Ty::Bytes } else { Ty::List(Box::new(e)) }
                     }
                     "BinaryHeap" => Ty::Heap(Box::new(arg0()?)),
+                    // `Cow<[u8]>` / `Cow<'a, [u8]>`: the bytes (owned or borrowed makes no difference to a reader of them)
+                    "Cow" => match &seg.arguments {
+                        PathArguments::AngleBracketed(a) => {
+                            let t = a.args.iter().find_map(|g| match g { GenericArgument::Type(t) => Some(t), _ => None }).ok_or("Cow without a type argument")?;
+                            self.ty_of(t, generics)?
+                        }
+                        _ => return Err("Cow without type argument".into()),
+                    },
                     "Option" => Ty::Opt(Box::new(arg0()?)),
                     "Result" => Ty::Res(Box::new(arg0()?)),
                     "Bound" => Ty::Bound(Box::new(arg0()?)),
@@ -448,6 +456,10 @@ pub struct Ctx<'w> {
     pub used_merge: bool,
     /// `tuplelet=1` on the target line
     pub tuple_let: bool,
+    /// `xcodec=1`: calls of `<name>_compress` / `<name>_decompress` go to the external codec table `xcompress` / `xdecompress`
+    pub xcodec: bool,
+    pub used_xcompress: bool,
+    pub used_xdecompress: bool,
     /// wrappers still alive at the end of the function: (place text, Lean callee, place) dropped before the final return
     pub pending_drops: Vec<(String, String)>,
     /// rust variables standing for one element of a list place (`if let Some(x) = v.last_mut()`, `split_last_mut`)
